@@ -274,7 +274,7 @@ func H_C08() {
 	}
 	eq, diff := TreeEq(a.Root, b.Root, CmpTokens)
 	if diff != "" {
-		Fail("C08:trivia-keeps-structure", diff)
+		Fail("C08:trivia-keeps-structure", shortDiffC(diff)+" ("+ctxName(ParamStr("ctx"))+")")
 	} else {
 		Assert("C08:trivia-keeps-structure", eq)
 	}
@@ -286,6 +286,9 @@ func H_C08() {
 func ctxName(ctx string) string {
 	if ctx == "halt-compiler-head" {
 		return "between __halt_compiler and its ';'"
+	}
+	if ctx == "semicolon-close-tag" {
+		return "between ';' and a close tag"
 	}
 	if ctx == "after-heredoc-label" {
 		return "after the ';' that follows a heredoc label"
